@@ -66,7 +66,7 @@ class StaticCondensation(Module):
         self.n = np.shape(A)[0]
         self.module_LinSolve.sig_in[0].state = A[self.f, ...][..., self.f]
         Afm = A[self.f, ...][..., self.m]
-        self.module_LinSolve.sig_in[1].state = Afm.todense() if hasattr(Afm, 'todense') else Afm
+        self.module_LinSolve.sig_in[1].state = Afm.toarray() if hasattr(Afm, 'toarray') else Afm
         self.module_LinSolve.response()
         self.X = self.module_LinSolve.sig_out[0].state
         return A[self.m, ...][..., self.m] - A[self.m, ...][..., self.f] @ self.X
